@@ -2,9 +2,10 @@ package main
 
 import (
 	"bytes"
+	stdflate "compress/flate"
 	"crypto/sha256"
 	"fmt"
-	"io/ioutil"
+	"io"
 	"sync"
 
 	"github.com/dsnet/compress/brotli"
@@ -13,6 +14,8 @@ import (
 	cinternal "github.com/dsnet/compress/internal"
 	"github.com/dsnet/compress/xflate"
 	"github.com/dsnet/compress/xflate/internal/meta"
+	"github.com/dsnet/compress/xflate/verifharness/gen"
+	"github.com/dsnet/compress/xflate/verifharness/ref"
 	"github.com/dsnet/compress/xflate/verifharness/vhlib"
 )
 
@@ -44,6 +47,8 @@ type job struct {
 	Run  func() string // returns a digest of everything observable
 }
 
+var c19Special = map[string][][]byte{}
+
 func c19Jobs(r *vhlib.Run) []job {
 	rng := r.Rng
 	var jobs []job
@@ -65,14 +70,72 @@ func c19Jobs(r *vhlib.Run) []job {
 			}
 			jobs = append(jobs, job{c.Name + ".Reader", func() string {
 				z := c.New(bytes.NewReader(s.Data))
-				out, err := ioutil.ReadAll(z)
+				out, err := readCap(z)
 				z.Reset(bytes.NewReader(bad))
-				out2, err2 := ioutil.ReadAll(z)
+				out2, err2 := readCap(z)
 				z.Reset(bytes.NewReader(s.Data))
-				out3, _ := ioutil.ReadAll(z)
+				out3, _ := readCap(z)
 				return sum(out, []byte(vhlib.ErrClass(err)), out2, []byte(vhlib.ErrClass(err2)), out3)
 			}})
 		}
+	}
+	// workloads that exercise rarely used paths of the decoders
+	special := c19Special
+	for k := range special {
+		delete(special, k)
+	}
+	for per := 1; per <= 4; per++ {
+		// flate: periodic data flushed every few bytes: hundreds of dynamic blocks
+		// with single-code distance trees, a different code per period
+		var bb bytes.Buffer
+		zw, _ := stdflate.NewWriter(&bb, 9)
+		unit := vhlib.RandBytes(rng, per)
+		for i := 0; i < 300; i++ {
+			for k := 0; k < 40; k++ {
+				zw.Write(unit)
+			}
+			zw.Flush()
+		}
+		zw.Close()
+		special["flate"] = append(special["flate"], bb.Bytes())
+	}
+	for k := 0; k < 4; k++ {
+		// brotli: dictionary-rich text, long enough for words to straddle the
+		// window growth boundaries (4 KiB, 16 KiB, 64 KiB)
+		txt := []byte(brText(rng, 80000+rng.Intn(20000)))
+		special["brotli"] = append(special["brotli"], ref.BrCompress([]ref.BrOp{{Data: txt, Op: 2}}, 11, 22, 1, 0, -1, -1))
+	}
+	for k := 0; k < 3; k++ {
+		special["bzip2"] = append(special["bzip2"], ref.BZCompress(vhlib.RandBytes(rng, 150000), 1+k))
+	}
+	for _, c := range codecs() {
+		c := c
+		for _, d := range special[c.Name] {
+			d := d
+			jobs = append(jobs, job{c.Name + ".Reader(special)", func() string {
+				z := c.New(bytes.NewReader(d))
+				out, err := readCap(z)
+				return sum(out, []byte(vhlib.ErrClass(err)))
+			}})
+		}
+	}
+	// flate: batches of bit-level synthesized streams: every batch parses hundreds of
+	// dynamic block headers, a third of them with single-code (degenerate) trees
+	for k := 0; k < 4; k++ {
+		var batch [][]byte
+		for i := 0; i < 300; i++ {
+			batch = append(batch, gen.SynthFlate(rng, 0).Data)
+		}
+		jobs = append(jobs, job{"flate.Reader(synth-batch)", func() string {
+			h := sha256.New()
+			for _, d := range batch {
+				z, _ := flate.NewReader(bytes.NewReader(d), nil)
+				out, err := readCap(z)
+				h.Write(out)
+				h.Write([]byte(vhlib.ErrClass(err)))
+			}
+			return fmt.Sprintf("%x", h.Sum(nil))
+		}})
 	}
 	for _, wc := range wcodecs() {
 		wc := wc
@@ -101,12 +164,12 @@ func c19Jobs(r *vhlib.Run) []job {
 			if err != nil {
 				return "open-failed"
 			}
-			out, _ := ioutil.ReadAll(xr)
+			out, _ := readCap(xr)
 			xr.Seek(100, 0)
 			b := make([]byte, 50)
 			xr.Read(b)
 			xr.Reset(bytes.NewReader(sink))
-			out2, _ := ioutil.ReadAll(xr)
+			out2, _ := readCap(xr)
 			return sum(out, b, out2)
 		}})
 	}
@@ -162,7 +225,69 @@ func runC19(r *vhlib.Run) {
 			before = d
 		}
 	}
+	// deterministic interleaving in ONE goroutine: two Readers of the same type take
+	// turns calling Read with small buffers; each must deliver what it delivers alone
+	for _, c := range codecs() {
+		var streams [][]byte
+		streams = append(streams, c19Special[c.Name]...)
+		for k := 0; k < 3; k++ {
+			streams = append(streams, c.Valid(r.Rng, 20000).Data)
+		}
+		alone := make([][]byte, len(streams))
+		for i, d := range streams {
+			alone[i], _ = readCap(c.New(bytes.NewReader(d)))
+		}
+		for i := range streams {
+			for j := range streams {
+				if i == j {
+					continue
+				}
+				a, b := c.New(bytes.NewReader(streams[i])), c.New(bytes.NewReader(streams[j]))
+				var oa, ob []byte
+				bufA, bufB := make([]byte, 1+r.Rng.Intn(700)), make([]byte, 1+r.Rng.Intn(700))
+				var ea, eb error
+				for (ea == nil || eb == nil) && len(oa) < 64<<20 && len(ob) < 64<<20 {
+					if ea == nil {
+						var n int
+						n, ea = a.Read(bufA)
+						oa = append(oa, bufA[:n]...)
+					}
+					if eb == nil {
+						var n int
+						n, eb = b.Read(bufB)
+						ob = append(ob, bufB[:n]...)
+					}
+				}
+				r.Eval("interleaved:"+c.Name, true, []byte(fmt.Sprint(c.Name, i, j)))
+				if !bytes.Equal(oa, alone[i]) || !bytes.Equal(ob, alone[j]) {
+					r.Violate("result-differs-when-interleaved", fmt.Sprintf("%s: two Readers taking turns in one goroutine: stream %d gives %d/%d bytes, stream %d gives %d/%d bytes (alone)",
+						c.Name, i, len(oa), len(alone[i]), j, len(ob), len(alone[j])), map[string]interface{}{"codec": c.Name, "stream_a": vhlib.Hex(streams[i][:min(len(streams[i]), 200)]), "stream_b": vhlib.Hex(streams[j][:min(len(streams[j]), 200)])})
+				}
+			}
+		}
+	}
 	r.Notes["race_detector"] = raceEnabled
 	r.Notes["goroutines_per_round"] = len(jobs)
 	r.Sample(map[string]interface{}{"jobs": len(jobs), "types": "flate/brotli/bzip2/meta/xflate Readers (read, Reset to corrupt stream, Reset back), bzip2/xflate/meta Writers (write, flush, close, Reset, rewrite)"})
+}
+
+// readCap is ioutil.ReadAll with a ceiling: a decoder that has been corrupted by
+// another instance may produce output without end.
+func readCap(z io.Reader) ([]byte, error) {
+	const ceil = 32 << 20
+	var out []byte
+	buf := make([]byte, 32<<10)
+	for {
+		n, err := z.Read(buf)
+		out = append(out, buf[:n]...)
+		if err == io.EOF {
+			return out, nil
+		}
+		if err != nil {
+			return out, err
+		}
+		if len(out) > ceil {
+			return out, fmt.Errorf("output exceeds %d bytes", ceil)
+		}
+	}
 }
